@@ -186,8 +186,8 @@ theorem validate_ok_iff {ε : Type} (a : CliArgs) :
     | false => simp [validate]
     | true =>
       by_cases h : c < 1
-      · simp [validate, h] <;> omega
-      · simp [validate, h] <;> omega
+      · simp [validate, h]
+      · simp [validate, h]; omega
 
 /-! ### the runner returns -/
 
